@@ -593,7 +593,9 @@ func tailFile(path string, n int64) string {
 	return string(b)
 }
 
-var gorHead = regexp.MustCompile(`(?m)^goroutine (\d+) \[([^\]]+)\]:$`)
+// a SIGQUIT traceback prints "goroutine 1 gp=0xc000006 m=nil [semacquire]:", runtime.Stack prints
+// "goroutine 1 [semacquire]:"; accept both.
+var gorHead = regexp.MustCompile(`(?m)^goroutine (\d+) (?:gp=\S+ m=\S+ (?:mp=\S+ )?)?\[([^\]]+)\]:$`)
 
 // ClassifyDump inspects a goroutine dump: it reports whether every goroutine that runs
 // library or harness code is blocked for good (channel, select, semaphore, wait group),
